@@ -225,7 +225,7 @@ class PG:
 
 def gen_program(rng):
     pg = PG(rng, CFG_NAMES, SYM_NAMES)
-    kind = rng.choice(['expr', 'expr', 'multi', 'multi', 'multi', 'long', 'raises', 'global', 'callable'])
+    kind = rng.choice(['expr', 'expr', 'multi', 'multi', 'multi', 'long', 'raises', 'global', 'callable', 'annot'])
     lines = []
     if kind == 'expr':
         lines = [pg.expr(rng.choice([1, 2, 3]))]
@@ -241,6 +241,13 @@ def gen_program(rng):
     elif kind == 'raises':
         lines += pg.stmt(1)
         lines.append(rng.choice(['undefined_name + 1', '1 // 0', 'data["nope"]', 'elems[99]', 'int("x")', 'helper()', f'{pg.int_name()} + "str"']))
+    elif kind == 'annot':
+        # annotations are expressions like any other: evaluated when the def / the annotated assignment runs, over the same names
+        a, b = pg.int_name(), pg.int_name()
+        lines += [f'def f(q: int, r: {a} = 2, *, s: "txt" = 0) -> float:', '    return q', f'v: {b} = 5',
+                  rng.choice(['[(k, type(x).__name__, x if isinstance(x, (int, str)) else getattr(x, "__name__", None)) for k, x in sorted(f.__annotations__.items())]',
+                              'sorted((k, repr(x)) for k, x in f.__annotations__.items())',
+                              '[f.__annotations__["r"] + 1, v]'])]
     elif kind == 'callable':
         # the value is a function / lambda / closure whose body reads config names and symbols: it is called after the build (and after
         # the later builds of the history) and must still compute what the same Python function computes over the values of *its* build
